@@ -21,7 +21,7 @@ TIERS = {"quick": {"runs": 40000, "budget": 75}, "thorough": {"runs": 600000, "b
 
 
 def make_case(i, rng, tier):
-    inp = common.gen_input(rng, common.target_for(i, rng))
+    inp = common.gen_input(rng, common.target_for(i, rng), huge=True)
     o = model.decode(inp["root"], inp["data"], cc=inp["cc"], enc=inp["enc"])
     if not o.ok:
         raise HarnessError("generator produced a malformed input: %s %s" % (inp["label"], o.problem))
@@ -34,7 +34,7 @@ def make_case(i, rng, tier):
                 recs.append(rec)
         strict = not recs
     main = common.spec("main", inp["root"], data, inp["cc"], inp["enc"], strict=strict, consumer="binary")
-    tasks, sched = common.perturb(rng, [main], p_by=0.3)
+    tasks, sched = common.perturb(rng, [main], p_by=0.3, roots=True)
     return {"input": {"root": inp["root"], "cc": inp["cc"], "enc": inp["enc"], "label": inp["label"],
                       "orig": bytes(inp["data"]).hex()},
             "faults": recs, "tasks": tasks, "schedule": sched}
